@@ -414,6 +414,17 @@ impl Client {
                 // handshake must have been received. Ignore that.
 
                 if frame.nonce_ack == state.local_nonce {
+                    if (frame.max_receive_alloc as usize) < self.config.endpoint_config.max_packet_size {
+                        // A server never accepts a handshake it could not receive our largest
+                        // packet for, so this reply is not from a well-behaved server. Packets up
+                        // to max_packet_size are accepted by send() and must fit the peer's
+                        // receive allocation; refuse rather than connect with a limit that
+                        // breaks that.
+                        self.events_out.push(Event::Error(ErrorType::Config));
+                        self.state = State::Fin;
+                        return;
+                    }
+
                     let reply = frame::Frame::HandshakeAckFrame(frame::HandshakeAckFrame {
                         nonce_ack: frame.nonce,
                     });
